@@ -1,0 +1,7 @@
+//go:build !verif
+
+package server
+
+func verifGate(name string) {}
+
+func verifTrace(ev string, fields ...interface{}) {}
